@@ -101,6 +101,39 @@ def oracle_cache_faithful(case, impl):
     return None
 
 
+def oracle_tcpstream(case, impl):
+    """C01 on one TCP connection as a byte stream: every well-sized frame (> 14 bytes) in front of the first small or
+    incomplete one is answered exactly once with its own ID, however the stream was cut into writes; `halfclose`: a client that
+    shuts down its writing side after its last query still gets every reply ("never silence")."""
+    import re
+    f = case.split(" ")
+    if f[0] == "halfclose":
+        m = re.match(r"replied=(\d+)/(\d+)$", impl)
+        if not m:
+            return "halfclose: " + impl[:80]
+        if m.group(1) != m.group(2):
+            return ("%s pipelined TCP queries, the client then shut down its writing side and kept reading (upstream latency %s ms): "
+                    "only %s replies arrived - the connection is closed under the handlers still resolving" % (m.group(2), f[2], m.group(1)))
+        return None
+    s = b"" if f[1] == "-" else unhex(f[1])
+    want, off = [], 0
+    while off + 2 <= len(s):
+        l = int.from_bytes(s[off:off + 2], "big")
+        if off + 2 + l > len(s) or l <= 14:
+            break
+        want.append(s[off + 2:off + 4].hex())
+        off += 2 + l
+    m = re.match(r"ids=(\S+) end=(\S+)$", impl)
+    if not m:
+        return "tcpstream: " + impl[:80]
+    got = [] if m.group(1) == "-" else m.group(1).split(",")
+    if sorted(got) != sorted(want):
+        missing = [x for x in want if x not in got]
+        extra = [x for x in got if x not in want]
+        return "one TCP connection, %d frames to answer: replies missing for IDs %s, unexpected replies %s (end=%s)" % (len(want), missing, extra, m.group(2))
+    return None
+
+
 SPEC = dict(
     lean_module="NV.Props.C01",
     areas=[dict(name="sock", n_quick=3000, n_thorough=40000, shards_thorough=8, oracle=oracle_c01,
@@ -109,6 +142,8 @@ SPEC = dict(
                 nontrivial=lambda c, i: len(i) > 8),
            dict(name="e2e", n_quick=1500, n_thorough=24000, shards_thorough=8, oracle=oracle_e2e, timeout=900,
                 nontrivial=lambda c, i: len(i) > 8),
+           # one TCP connection as a byte stream: framing, write boundaries, small / incomplete frames, half-close
+           dict(name="tcpstream", n_quick=400, n_thorough=8000, shards_thorough=4, oracle=oracle_tcpstream, timeout=900),
            # the cache-hit leg: a served entry is the answer to this very question
            dict(name="cache", n_quick=600, n_thorough=8000, shards_thorough=8, oracle=oracle_cache_faithful, timeout=1500,
                 nontrivial=lambda c, i: "fc=1" in i)],
